@@ -41,11 +41,17 @@ async def _evaluate_expressions(sim, request):
 
     out = {}
     for expression in request["expressions"]:
-        tree = await parse_expression_including_unresolved_subexpressions(expression, resolve_packages=True)
         try:
+            tree = await parse_expression_including_unresolved_subexpressions(expression, resolve_packages=True)
             result = await evaluate_ahb_expression_tree(tree)
         except InvalidExpressionError as error:
             out[expression] = ["INVALID", error.error_message]
+            continue
+        except (KeyboardInterrupt, SystemExit):
+            raise
+        except BaseException as error:  # pylint:disable=broad-except
+            # the code under test cannot even evaluate this expression on its own at the no-yield schedule
+            out[expression] = ["ERROR", type(error).__name__]
             continue
         out[expression] = [
             result.requirement_indicator.name,
@@ -54,10 +60,12 @@ async def _evaluate_expressions(sim, request):
     return out
 
 
-def evaluate_expressions_alone(scenario, expressions):
+def evaluate_expressions_alone(scenario, expressions, rid=None):
     """to be called through runner.pristine"""
-    request = dict(scenario["requests"][0], expressions=sorted(set(expressions)))
+    source = scenario["requests"][0] if rid is None else next(r for r in scenario["requests"] if r["rid"] == rid)
+    request = dict(source, expressions=sorted(set(expressions)))
     request.pop("fault", None)
+    request.pop("start", None)
     solo = dict(scenario, profile="zero", decisions={}, decisions_closed=False, requests=[request])
     solo.pop("_with_log", None)
     _, outcomes = run_requests(solo, _evaluate_expressions)
@@ -133,7 +141,7 @@ def gen_validation_ahb(rnd, pool, n_roots=(1, 3), depth=2, p_pool=0.3, free_pool
 
 def summarise_validation(scenario):
     op = scenario["requests"][0]["op"]
-    return {
+    out = {
         "seed": scenario["seed"],
         "profile": scenario["profile"],
         "flavour": scenario["world"]["flavour"],
@@ -142,6 +150,35 @@ def summarise_validation(scenario):
         "requirement_constraints": scenario["requests"][0]["cer"]["requirement_constraints"],
         "ahb": compact(op["ahb"]),
     }
+    if len(scenario["requests"]) > 1:
+        out["further_validations_in_the_same_process"] = [
+            {"rid": r["rid"], "start": r.get("start", 0), "soll_is_required": r["op"]["soll"],
+             "requirement_constraints": r["cer"]["requirement_constraints"]}
+            for r in scenario["requests"][1:]
+        ]
+    return out
+
+
+def second_validation(rnd, first, rid="r1"):
+    """
+    another caller validating the same AHB with *other* data in the same process - after the first one or at the same
+    time (anything remembered across validations, per expression or per key, shows up here)
+    """
+    request = clone(first)
+    request["rid"] = rid
+    cer = request["cer"]
+    for key, state in list(cer["requirement_constraints"].items()):
+        if state != "UNKNOWN" and rnd.random() < 0.6:
+            cer["requirement_constraints"][key] = "UNFULFILLED" if state == "FULFILLED" else "FULFILLED"
+    for key, entry in cer["format_constraints"].items():
+        if rnd.random() < 0.5:
+            entry["format_constraint_fulfilled"] = not entry["format_constraint_fulfilled"]
+        entry["error_message"] = None if entry["format_constraint_fulfilled"] else f"E{key}@{rid}"
+    cer["hints"] = {key: f"H{key}@{rid}" for key in cer["hints"]}
+    if rnd.random() < 0.3:
+        request["op"]["soll"] = not request["op"]["soll"]
+    request["start"] = rnd.choice([1_000_000, 1_000_000, 0, 1, 3])
+    return request
 
 
 def compact(ahb):
@@ -164,7 +201,7 @@ def compact(ahb):
 # ------------------------------------------------------------------------------------------------------ shrink
 def ahb_size(scenario):
     op = scenario["requests"][0]["op"]
-    total = sum(1 for _ in walk(op["ahb"]))
+    total = sum(1 for _ in walk(op["ahb"])) + 20 * (len(scenario["requests"]) - 1)
     total += sum(len(holder[key]) for holder, key in expressions_of(op["ahb"])) // 8
     total += sum(1 for v in (scenario.get("decisions") or {}).values() if v[0] != "n")
     return total
